@@ -155,6 +155,7 @@ MALFORMED_ENTRIES = [
 NONSTRING_ENTRIES = [5, 167772161, 2 ** 40, -1, 1.5, True, False, ["10.0.0.0/8"], {"net": "10.0.0.0/8"}]
 ODD_BUT_VALID_ENTRIES = ["fe80::1%eth0", "fe80::%eth0/64", "::ffff:1.2.3.0/120", "::", "::/0", "0.0.0.0/0", "0.0.0.0", "255.255.255.255", "10.0.0.0/08",
                          "ffff:ffff:ffff:ffff:ffff:ffff:ffff:ffff", "::1", "127.0.0.1", "0:0:0:0:0:0:0:1"]
+URLS = ["gemini://localhost/", "gemini://localhost/index.gmi", "gemini://localhost/a?b"]
 MALFORMED_PEERS = ["", "unknown", "10.0.0.1 ", " 10.0.0.1", "10.0.0.01", "10.0.0.1/32", "localhost", "1.2.3.4:1965", "[::1]", "fe80::1%", "10.0.0.1%eth0",
                    "fe80::1%eth0%x", "1.2.3.4\n", "１.2.3.4", "::ffff:300.1.1.1", "1.2.3", "::1/128", "0x7f.0.0.1", "-1", "4294967296"]
 
@@ -436,14 +437,25 @@ class Wiring(_AclFamily):
             r = rng.random()
             c["enabled"] = None if r < 0.45 else True if r < 0.85 else False
             c["dflt_written"] = True if c["default"] is False else rng.random() < 0.6  # default_allow=true may be left out
-            c["rate_limit"] = rng.random() < 0.25
-            c["peers"] = c["peers"][:12]
+            # the chain the server assembles also holds the rate limiter: with a small burst capacity and several
+            # requests per peer in a row, a refused peer must still see 53 on every request
+            q = rng.random()
+            c["rl_cap"] = None if q < 0.35 else 100000 if q < 0.45 else rng.choice((1, 1, 2, 3))
+            c["rl_written"] = c["rl_cap"] is not None or rng.random() < 0.7   # enabled = false written, or the table left out (default: on, capacity 10)
+            cap = c["rl_cap"] if c["rl_cap"] is not None else (0 if c["rl_written"] else 10)
+            c["repeat"] = 1 if cap in (0, 100000) else (cap + 2) // 2 + rng.randint(0, 1) if cap <= 3 else rng.choice((1, 6))
+            c["peers"] = list(dict.fromkeys(c["peers"]))[:12 if c["repeat"] == 1 else 6]
             yield c
 
     def toml_text(self, case) -> str:
         tv = self.W.toml_value
-        lines = ["[rate_limit]"]
-        lines += ["enabled = true", "capacity = 100000"] if case.get("rate_limit") else ["enabled = false"]
+        lines = []
+        if "rl_cap" not in case:  # cases recorded before the sequence dimension existed
+            lines += ["[rate_limit]"] + (["enabled = true", "capacity = 100000"] if case.get("rate_limit") else ["enabled = false"])
+        elif case["rl_cap"] is not None:
+            lines += ["[rate_limit]", "enabled = true", f"capacity = {case['rl_cap']}", "refill_rate = 0.0009765625"]
+        elif case.get("rl_written", True):
+            lines += ["[rate_limit]", "enabled = false"]
         lines += ["", "[access_control]"]
         if case.get("enabled") is not None:
             lines.append(f"enabled = {tv(case['enabled'])}")
@@ -463,21 +475,27 @@ class Wiring(_AclFamily):
             chain = getattr(proto, "middleware", None)
             mws = list(getattr(chain, "middlewares", [])) if chain is not None else []
             cap["component"] = any(type(m).__name__ == "AccessControl" for m in mws)
-            res, wire = [], []
+            res, raw = [], []
             for p in case["peers"]:
-                if chain is None:
-                    res.append([True])
-                else:
-                    ok, line = await chain.process_request("gemini://localhost/", p, None)
-                    res.append([True] if ok else [False, line])
-                wire.append(await self.W.wire_status(factory, p))
-            cap["res"], cap["wire"] = res, wire
+                seq = []
+                for k in range(case.get("repeat", 1)):
+                    if chain is None:
+                        ok, line = True, None
+                    else:
+                        ok, line = await chain.process_request(URLS[k % len(URLS)], p, None)
+                    if k == 0:
+                        res.append([True] if ok else [False, line])
+                    else:
+                        seq.append("ok" if ok else str(line)[:2])
+                    seq.append(await self.W.wire_status(factory, p))
+                raw.append(seq)
+            cap["res"], cap["raw"] = res, raw
 
         started, _ = self.capture.run(self.toml_text(case), probe)
         if not started:
             return {"start": "failed"}
         return {"start": "ok", "component": cap["component"], "res": cap["res"],
-                "wire": ["d" if w == "53" else "a" for w in cap["wire"]]}
+                "wire": ["".join("d" if w == "53" else "a" for w in seq) for seq in cap["raw"]], "raw": cap["raw"]}
 
     def model(self, case):
         en = case.get("enabled")
@@ -490,7 +508,11 @@ class Wiring(_AclFamily):
         if w[1] == "nostart":
             return {"start": "failed"}
         line = core.uncps(w[3]) if w[1] == "chain" else ""
-        return {"start": "ok", "component": w[1] == "chain", "res": [[True] if d == "a" else [False, line] for d in w[2]], "wire": list(w[2])}
+        k = 2 * case.get("repeat", 1) - 1
+        return {"start": "ok", "component": w[1] == "chain", "res": [[True] if d == "a" else [False, line] for d in w[2]], "wire": [d * k for d in w[2]]}
+
+    def same(self, expected, obs):
+        return all(expected.get(k) == obs.get(k) for k in ("start", "component", "res", "wire"))
 
     def oracle(self, case, obs):
         if case.get("enabled") is False:
@@ -503,9 +525,14 @@ class Wiring(_AclFamily):
         if v:
             return v
         if obs["start"] == "ok":
-            for p, r, wv in zip(case["peers"], obs["res"], obs["wire"]):
-                if (wv == "a") != r[0]:
-                    return ("wire-differs", f"peer {p!r}: the chain {'admits' if r[0] else 'refuses'} but a connection from that peer got {'no 53' if wv == 'a' else 'a 53'} response")
+            # every further request of the same peer (alternately asked of the chain and sent over a connection)
+            # is decided like the first: a refused peer sees 53 every time, an admitted one never
+            for p, r, wv, raw in zip(case["peers"], obs["res"], obs["wire"], obs["raw"]):
+                for k, ch in enumerate(wv):
+                    if (ch == "a") != r[0]:
+                        if not r[0]:
+                            return ("denied-peer-not-53", f"peer {p!r} is refused by the configured policy, yet request #{k + 2} of its sequence was answered {raw[k]!r} instead of 53 (sequence after the first 53: {raw})")
+                        return ("wire-differs", f"peer {p!r}: the chain admits its first request but request #{k + 2} got a 53 response (sequence {raw})")
         return None
 
     def key(self, case, obs):
